@@ -62,7 +62,9 @@ type Config struct {
 	HSStall   bool                 // never answer the ClientHello
 	// CredScan reports whether a cleartext line carries a password-revealing payload.
 	CredScan func(line string) bool
-	Greeting time.Duration // how long to listen for early bytes before greeting
+	// FaultsFromConn: the scripted faults apply to connections with this number and later only (0: all)
+	FaultsFromConn int
+	Greeting       time.Duration // how long to listen for early bytes before greeting
 	// LateReply: a "stall" is not for ever - after this long the server answers the command with a 451
 	// (which nobody should be waiting for any more) and goes on serving the connection
 	LateReply time.Duration
@@ -177,6 +179,15 @@ type session struct {
 	ehlo int // number of EHLO commands seen
 }
 
+// fault returns the scripted fault for key k on this connection.
+func (x *session) fault(k Key) (Fault, bool) {
+	if x.id < x.s.cfg.FaultsFromConn {
+		return Fault{}, false
+	}
+	f, ok := x.s.cfg.Faults[k]
+	return f, ok
+}
+
 // emit records an event of this connection.
 func (x *session) emit(kind string, kv ...interface{}) {
 	x.s.rec.Emit(kind, append(kv, "conn", x.id)...)
@@ -214,7 +225,7 @@ func (x *session) reply(k Key, okText string, caps []string) bool {
 	if x.s.cfg.Jitter != nil {
 		time.Sleep(x.s.cfg.Jitter())
 	}
-	f, bad := x.s.cfg.Faults[k]
+	f, bad := x.fault(k)
 	if !bad {
 		code := OkCode(k.V)
 		if caps != nil {
@@ -371,12 +382,12 @@ func (x *session) serveCmds() {
 				return
 			}
 		case "DATA":
-			_, bad := s.cfg.Faults[key]
+			_, bad := x.fault(key)
 			if !x.reply(key, "go ahead", nil) {
 				return
 			}
 			if !bad {
-				if f, st := s.cfg.Faults[Key{"CONTENT", x.last, 0}]; st && f.Class == "cstall" {
+				if f, st := x.fault(Key{"CONTENT", x.last, 0}); st && f.Class == "cstall" {
 					x.stall() // stop reading in the middle of the content
 					return
 				}
@@ -385,7 +396,7 @@ func (x *session) serveCmds() {
 				}
 			}
 		case "STARTTLS":
-			_, bad := s.cfg.Faults[key]
+			_, bad := x.fault(key)
 			if !x.reply(key, "ready for TLS", nil) {
 				return
 			}
@@ -579,7 +590,7 @@ func (x *session) auth(arg string) bool {
 	s := x.s
 	key := Key{"AUTH", 0, 0}
 	if s.cfg.Auth == nil {
-		if _, bad := s.cfg.Faults[key]; bad {
+		if _, bad := x.fault(key); bad {
 			return x.reply(key, "", nil)
 		}
 		x.emit("reply", "code", 504, "cls", "p5", "esc", "", "caps", []string{})
@@ -597,7 +608,7 @@ func (x *session) auth(arg string) bool {
 		}
 	}
 	for j := 0; ; j++ {
-		if f, bad := s.cfg.Faults[key]; bad {
+		if f, bad := x.fault(key); bad {
 			if f.Class != "mal" {
 				return x.reply(key, "", nil)
 			}
@@ -679,7 +690,7 @@ func (s *Server) serve(c net.Conn, id int) {
 		}
 	}
 	gk := Key{"GREET", 0, 0}
-	if f, bad := s.cfg.Faults[gk]; bad {
+	if f, bad := x.fault(gk); bad {
 		switch f.Class {
 		case "drop":
 			x.emit("drop")
